@@ -4,6 +4,7 @@ import (
 	"io"
 	"net/http"
 	"net/http/httptest"
+	"strconv"
 	"strings"
 	"sync"
 	"sync/atomic"
@@ -108,5 +109,108 @@ func Test_C25_InFlightAtStepDown(t *testing.T) {
 	}
 	if !strings.Contains(got, "2001") {
 		t.Errorf("DEFECT REPRODUCED: entry 3 (row 2001) never delivered although the node is leader and the endpoint is up; HWM=%d fifoLen=%d", svc.HighWatermark(), svc.fifo.Len())
+	}
+}
+
+func c25ServiceIn(t *testing.T, dir, url string, batchSz int, cl Cluster) *Service {
+	cfg := DefaultConfig()
+	cfg.Endpoint = url
+	cfg.MaxBatchSz = batchSz
+	cfg.MaxBatchDelay = 50 * time.Millisecond
+	cfg.HighWatermarkInterval = 100 * time.Millisecond
+	cfg.TransmitMinBackoff = 20 * time.Millisecond
+	cfg.TransmitMaxBackoff = 20 * time.Millisecond
+	svc, err := NewService("node1", dir, cl, cfg)
+	if err != nil {
+		t.Fatal(err)
+	}
+	if err := svc.Start(); err != nil {
+		t.Fatal(err)
+	}
+	return svc
+}
+
+// The store hands over the groups of the entries it applied and requests the snapshot sync right
+// away (fsmApply and fsmSnapshot run on one goroutine). With N groups still in the hand-off
+// channel, writeToBatcher's select takes the request before the last group with probability
+// 1 - 2^-N. After the answered sync the log is truncated: stop, start, become leader.
+func Test_C25_SnapshotSyncOvertakesHandOff(t *testing.T) {
+	ep := &c25Endpoint{}
+	ts := httptest.NewServer(ep)
+	defer ts.Close()
+	dir := t.TempDir()
+	cl := newMockCluster()
+	svc := c25ServiceIn(t, dir, ts.URL, 100, cl)
+	const n = 20
+	for i := 1; i <= n; i++ {
+		svc.C() <- c25Group(uint64(i), int64(3000+i))
+	}
+	if err := cl.RequestSnapshotSync(2 * time.Second); err != nil {
+		t.Fatal(err)
+	}
+	inFIFO := svc.fifo.Len()
+	svc.Stop() // the snapshot has truncated the log: nothing is applied again after the restart
+
+	svc2 := c25ServiceIn(t, dir, ts.URL, 100, newMockCluster())
+	defer svc2.Stop()
+	svc2.SetLeader(true)
+	time.Sleep(time.Second)
+	got := ep.all()
+	missing := 0
+	for i := 1; i <= n; i++ {
+		if !strings.Contains(got, strconv.Itoa(3000+i)) {
+			missing++
+		}
+	}
+	t.Logf("items in the FIFO when the sync was answered: %d; rows missing at the endpoint after restart: %d of %d", inFIFO, missing, n)
+	if missing > 0 {
+		t.Errorf("DEFECT REPRODUCED: %d of %d groups handed over BEFORE the answered snapshot sync never reach the endpoint", missing, n)
+	}
+}
+
+type c25RecCluster struct {
+	*mockCluster
+	mu   sync.Mutex
+	hwms []uint64
+}
+
+func (c *c25RecCluster) BroadcastHighWatermark(v uint64) error {
+	c.mu.Lock()
+	c.hwms = append(c.hwms, v)
+	c.mu.Unlock()
+	return nil
+}
+
+// Entries 3 and 4 sit in the FIFO as ONE item (key 4), never transmitted. After a restart the
+// high watermark is "first key - 1" = 3, and the leader broadcasts it while the endpoint is down.
+func Test_C25_StartupHWMGuessIsBroadcast(t *testing.T) {
+	ep := &c25Endpoint{}
+	ep.down.Store(true)
+	ts := httptest.NewServer(ep)
+	defer ts.Close()
+	dir := t.TempDir()
+	svc := c25ServiceIn(t, dir, ts.URL, 2, newMockCluster()) // follower
+	svc.C() <- c25Group(3, 4003)
+	svc.C() <- c25Group(4, 4004)
+	for svc.fifo.Len() == 0 {
+		time.Sleep(5 * time.Millisecond)
+	}
+	svc.Stop()
+
+	cl := &c25RecCluster{mockCluster: newMockCluster()}
+	svc2 := c25ServiceIn(t, dir, ts.URL, 2, cl)
+	defer svc2.Stop()
+	first, _ := svc2.fifo.FirstKey()
+	t.Logf("after restart: FIFO first key %d, HighWatermark() %d", first, svc2.HighWatermark())
+	svc2.SetLeader(true)
+	time.Sleep(350 * time.Millisecond)
+	cl.mu.Lock()
+	hwms := append([]uint64(nil), cl.hwms...)
+	cl.mu.Unlock()
+	t.Logf("endpoint accepted %d requests, refused %d; broadcasts: %v", len(ep.bodies), ep.refused.Load(), hwms)
+	for _, v := range hwms {
+		if v >= 3 && !strings.Contains(ep.all(), "4003") {
+			t.Fatalf("DEFECT REPRODUCED: high watermark %d broadcast although entry 3 (row 4003) was never sent", v)
+		}
 	}
 }
